@@ -41,7 +41,7 @@ theorem default_uses_only_libc (d : Deque) (m : Mem) (op : Op) (hi : d.Inv) (ht 
   · exfalso
     obtain ⟨_, h2⟩ := (blocked_iff d m op hi).mp hb
     rcases h2 with h2 | h2
-    · rw [ht] at h2; simp [Mem.allocT] at h2
+    · cases op <;> simp [refusalFires, ht, Mem.allocT] at h2
     · cases op <;> first | exact hc h2 | exact h2.elim
 
 /-- both, for whole histories (any arguments, any schedule) -/
@@ -139,6 +139,16 @@ theorem step_allocator_independent (d : Deque) (m m' : Mem) (op : Op) (h : m.sch
     simp only [stepM, a]; exact ⟨trivial, trivial, b⟩
   | indexOf x =>
     obtain ⟨a, b, c⟩ := Deque.indexOf_indep d x m m' h; simp only [stepM, a, b]; exact ⟨trivial, trivial, c⟩
+  | size => exact ⟨rfl, rfl, h⟩
+  | foreach =>
+    obtain ⟨_, _, _, _, _, ⟨a, b⟩⟩ := Deque.getters_indep d 0 0 (fun _ _ => true) m m' h
+    simp only [stepM, a]; exact ⟨trivial, trivial, b⟩
+  | copySwap cp =>
+    obtain ⟨a, b, c⟩ := Deque.copy_indep d cp m m' h
+    simp only [stepM, a, b]
+    split
+    · exact ⟨rfl, rfl, by unfold Deque.destroy; exact Deque.free_congr _ (Deque.free_congr _ c)⟩
+    · exact ⟨rfl, rfl, c⟩
 
 /-- **allocator_independent**, histories: the whole output sequence and the final physical state are the
 same on any two ledgers with the same refusal schedule — e.g. the counting allocator and a pool that is
